@@ -154,6 +154,12 @@ func (t *tree5) derive(p *node5, r *rng.R) *node5 {
 	case k == 5:
 		n.step = "Level"
 		n.level = zerolog.Level(r.Intn(4) - 1)
+		if r.Chance(1, 6) {
+			// a disabled (or panic-only) node: nothing is emitted through it, but whatever is derived below it and
+			// re-enabled by a later Level step must still carry the whole path
+			n.level = []zerolog.Level{zerolog.Disabled, zerolog.PanicLevel, zerolog.NoLevel}[r.Intn(3)]
+			n.step = fmt.Sprintf("Level(%d)", n.level)
+		}
 		n.l = p.l.Level(n.level)
 	case k == 6:
 		n.step = "Sample"
@@ -547,6 +553,17 @@ func c05tree(out *evid.Out, f *evid.Flags, ti int, concurrent bool) {
 		if strings.HasPrefix(n.step, "Sample") {
 			out.Count("step_Sample", 1)
 		}
+		if strings.HasPrefix(n.step, "Level(") {
+			out.Count("step_Level_disabling", 1)
+			for _, c := range t.nodes {
+				for a := c; a.parent >= 0; a = t.nodes[a.parent] {
+					if a == n && c != n && c.level <= zerolog.ErrorLevel {
+						out.Count("nodes_reenabled_below_a_disabled_node", 1)
+						break
+					}
+				}
+			}
+		}
 		out.Count("step_"+n.step, 1)
 	}
 	if concurrent || ti%10 == 0 {
@@ -622,8 +639,14 @@ func c05concurrent(out *evid.Out, t *tree5, ti int, r *rng.R, viol func(string, 
 				t.open(child, zerolog.ErrorLevel, 0, "", cid).Msg("m")
 				mu.Lock()
 				done = append(done, res{n, id, i % 4}, res{child, cid, 0})
-				if n.samp != nil && zerolog.ErrorLevel >= n.level {
-					wantInc[n.samp.id] += 2 // the node's event and the child's (same sampler, level gate passed)
+				if n.samp != nil {
+					// the node's event and the child's consult the same sampler, each iff its own level gate passes
+					if zerolog.ErrorLevel >= n.level {
+						wantInc[n.samp.id]++
+					}
+					if zerolog.ErrorLevel >= child.level {
+						wantInc[n.samp.id]++
+					}
 				}
 				mu.Unlock()
 			}
